@@ -31,10 +31,16 @@
 use crate::sync::{futex_wait_fast, NotSend};
 use core::cell::UnsafeCell;
 use core::fmt;
+#[cfg(tiny_std_verif)]
+use crate::verif::{futex_wake, AtomicU32};
+#[cfg(tiny_std_verif)]
+use core::sync::atomic::Ordering::{Acquire, Relaxed, Release};
+#[cfg(not(tiny_std_verif))]
 use core::sync::atomic::{
     AtomicU32,
     Ordering::{Acquire, Relaxed, Release},
 };
+#[cfg(not(tiny_std_verif))]
 use rusl::futex::futex_wake;
 
 struct InnerMutex {
